@@ -39,3 +39,24 @@ func ToBF(f *ref.F) bf.Formula {
 	}
 	panic("unknown op " + f.Op)
 }
+
+// treeEval returns the evaluation function that judges a case: the reference semantics of internal/ref, or, when
+// a group lists a variable twice (dup; the documentation does not say what that means), the library's own Eval,
+// so that Solve and Dimacs are only required to agree with what the library itself says the formula means.
+func treeEval(f *ref.F, dup bool) func(map[string]bool) bool {
+	if !dup {
+		return f.Eval
+	}
+	lib := ToBF(f)
+	return func(m map[string]bool) bool { return lib.Eval(m) }
+}
+
+// hasModelBy tells whether some assignment of vars satisfies eval.
+func hasModelBy(vars []string, eval func(map[string]bool) bool) bool {
+	for a := uint32(0); a < 1<<uint(len(vars)); a++ {
+		if eval(ref.AssignOf(vars, a)) {
+			return true
+		}
+	}
+	return false
+}
